@@ -24,6 +24,7 @@ NegS(n) == LET g == Neg(n) IN IF n.gen THEN [g EXCEPT !.id = GenIdSet(n.kids, 1 
 (* the non-default branch with priority -2 (it must cost more than any number of plain selections)       *)
 WithPrio(m, p) == [m EXCEPT !.prio = p]
 WithDflt(m, d) == [m EXCEPT !.dflt = IF d = "" THEN <<>> ELSE <<d>>]
+\* (an option named twice stays twice, like in the library: such a group does not pass validation and is outside every domain)
 CcAny(ks, d, id) ==
   LET dk   == SelectSeq(ks, LAMBDA m : m.id = d)
       rest == SelectSeq(ks, LAMBDA m : m.id # d)
